@@ -144,43 +144,41 @@ pub(crate) fn remove_or_compress_too_old_logfiles_impl(
         } else if index >= log_limit {
             #[cfg(feature = "compress")]
             {
-                // compress, if not yet compressed
-                if let Some(extension) = file.extension() {
-                    if extension != "gz" {
-                        let mut compressed_file = file.clone();
-                        match compressed_file.extension() {
-                            Some(oss) => {
-                                let mut oss_gz = oss.to_os_string();
-                                oss_gz.push(".gz");
-                                compressed_file.set_extension(oss_gz.as_os_str());
-                            }
-                            None => {
-                                compressed_file.set_extension("gz");
-                            }
+                // compress, if not yet compressed (a log file without suffix has no extension)
+                if file.extension().map_or(true, |extension| extension != "gz") {
+                    let mut compressed_file = file.clone();
+                    match compressed_file.extension() {
+                        Some(oss) => {
+                            let mut oss_gz = oss.to_os_string();
+                            oss_gz.push(".gz");
+                            compressed_file.set_extension(oss_gz.as_os_str());
                         }
-
-                        #[cfg(flexi_logger_verif)]
-                        crate::verif_hooks::fs_point(
-                            crate::verif_hooks::FsOp::GzCreate,
-                            &compressed_file,
-                        )?;
-                        let mut gz_encoder = flate2::write::GzEncoder::new(
-                            File::create(compressed_file)?,
-                            flate2::Compression::fast(),
-                        );
-                        #[cfg(flexi_logger_verif)]
-                        crate::verif_hooks::fs_point(crate::verif_hooks::FsOp::GzOpen, &file)?;
-                        let mut old_file = File::open(file.clone())?;
-                        #[cfg(flexi_logger_verif)]
-                        crate::verif_hooks::fs_point(crate::verif_hooks::FsOp::GzCopy, &file)?;
-                        std::io::copy(&mut old_file, &mut gz_encoder)?;
-                        #[cfg(flexi_logger_verif)]
-                        crate::verif_hooks::fs_point(crate::verif_hooks::FsOp::GzFinish, &file)?;
-                        gz_encoder.finish()?;
-                        #[cfg(flexi_logger_verif)]
-                        crate::verif_hooks::fs_point(crate::verif_hooks::FsOp::Remove, &file)?;
-                        std::fs::remove_file(&file)?;
+                        None => {
+                            compressed_file.set_extension("gz");
+                        }
                     }
+
+                    #[cfg(flexi_logger_verif)]
+                    crate::verif_hooks::fs_point(
+                        crate::verif_hooks::FsOp::GzCreate,
+                        &compressed_file,
+                    )?;
+                    let mut gz_encoder = flate2::write::GzEncoder::new(
+                        File::create(compressed_file)?,
+                        flate2::Compression::fast(),
+                    );
+                    #[cfg(flexi_logger_verif)]
+                    crate::verif_hooks::fs_point(crate::verif_hooks::FsOp::GzOpen, &file)?;
+                    let mut old_file = File::open(file.clone())?;
+                    #[cfg(flexi_logger_verif)]
+                    crate::verif_hooks::fs_point(crate::verif_hooks::FsOp::GzCopy, &file)?;
+                    std::io::copy(&mut old_file, &mut gz_encoder)?;
+                    #[cfg(flexi_logger_verif)]
+                    crate::verif_hooks::fs_point(crate::verif_hooks::FsOp::GzFinish, &file)?;
+                    gz_encoder.finish()?;
+                    #[cfg(flexi_logger_verif)]
+                    crate::verif_hooks::fs_point(crate::verif_hooks::FsOp::Remove, &file)?;
+                    std::fs::remove_file(&file)?;
                 }
             }
         }
